@@ -817,7 +817,9 @@ def _explicit_raises(fn_node) -> set:
     for n in walk(fn_node):
         if isinstance(n, ast.Raise) and n.exc is not None:
             e = n.exc.func if isinstance(n.exc, ast.Call) else n.exc
-            out.add((ap(e) or "Exception").split(".")[-1])
+            nm = (ap(e) or "Exception").split(".")[-1]
+            if nm != "NotImplementedError":        # abstract stubs, overridden in every concrete value class
+                out.add(nm)
         elif isinstance(n, ast.Assert):
             out.add("AssertionError")
         elif isinstance(n, ast.Call) and ap(n.func) == "zip" and \
@@ -862,7 +864,9 @@ def value_class_raises(repo, f, val_p) -> Dict[str, Dict[str, set]]:
             m = repo.lookup_method(ci, dn)
             if m is None:
                 continue
-            r = _explicit_raises(m.node)
+            r = set()
+            for g, _ in effective_code(repo, ci, dn, depth=2):     # the dunder and the self. helpers it runs
+                r |= _explicit_raises(g.node)
             if r:
                 out.setdefault(dn, {})[ci.name] = r
     return out
